@@ -132,6 +132,9 @@ def obs_events(chk):
             batch.add(ev, {'k': k})
             # lsf: minimum-phase polynomial from reflection coefficients of moderate size
             kk = rng.uniform(-0.9, 0.9, order) * (0.95 ** np.arange(order))
+            if rep % 4 == 2 and order <= 3:
+                # strongly low-pass / high-pass models: every line spectral frequency below 1 rad (or above pi - 1)
+                kk = np.array([[-0.97], [-0.97, 0.9], [-0.98, 0.95, -0.9]][order - 1]) * (1 if rep % 8 == 2 else [-1, 1, -1][:order])
             ok, res = call_guard(lp.rc2poly, kk.copy(), 1.0)
             ev = {'ev': 'lsf', 'order': order}
             if not ok:
